@@ -553,6 +553,67 @@ def run_samples(ctx, use_model=True):
             ctx.case(("sample", fn, fresh) if nt else None)
 
 
+
+# ------------------------------------------------------------------ malformed stream (correspondence only)
+def run_malformed(ctx, n):
+    """mostly-valid layouts with one structural damage: the model must raise the same exception class as mutagen, or
+    write the same bytes (the oracle does not apply: the input is not well-formed)"""
+    from mutagen.mp4 import MP4
+    import mutagen
+    rng = ctx.rng
+    pool = core_layouts()
+    for i in range(n):
+        name, l = pool[rng.randrange(len(pool))]
+        d = bytearray(py_build(with_boundary_entries(l))[0])
+        kind = rng.choice(["truncate", "count", "size", "tfhdlen", "byte"])
+        if kind == "truncate":
+            del d[len(d) - rng.choice([1, 3, 8, 17, 40, 200]):]
+        else:
+            atoms = [a for a in W.mp4_flat(W.mp4_atoms(bytes(d)))]
+            if kind == "count":
+                tabs = [a for a in atoms if a["name"] in (b"stco", b"co64")]
+                if not tabs:
+                    continue
+                a = rng.choice(tabs)
+                d[a["off"] + 12:a["off"] + 16] = struct.pack(">I", rng.choice([0, 1, 7, 2 ** 31, 2 ** 32 - 1]))
+            elif kind == "size":
+                a = rng.choice(atoms)
+                d[a["off"]:a["off"] + 4] = struct.pack(">I", rng.choice([0, 1, 2, 7, 8, a["size"] + 1, a["size"] - 1, 2 ** 32 - 1]) % 2 ** 32)
+            elif kind == "tfhdlen":
+                tf = [a for a in atoms if a["name"] == b"tfhd"]
+                if not tf:
+                    continue
+                a = rng.choice(tf)
+                d[a["off"] + 8:a["off"] + 12] = b"\0\0\0\1"
+                d[a["off"]:a["off"] + 4] = struct.pack(">I", rng.choice([8, 12, 16, 20, 23]))
+            else:
+                k = rng.randrange(len(d))
+                d[k] = rng.randrange(256)
+        d = bytes(d)
+        ctx.count("malformed:" + kind)
+        try:
+            obj = MP4(io.BytesIO(d))
+            if obj.tags is None:
+                obj.add_tags()
+            obj.tags["\xa9nam"] = ["m" * rng.choice([1, 60, 900])]
+            ilst = CM.scratch_ilst(obj.tags)
+        except Exception:
+            ctx.count("malformed:not-loadable")
+            continue
+        b = io.BytesIO(d)
+        exc = None
+        try:
+            obj.save(b, padding=pad_callback("zero", []))
+        except mutagen.MutagenError as e:
+            exc = ("MutagenError", type(e).__name__, str(e)[:100])
+        except Exception as e:
+            exc = ("OTHER", type(e).__name__, str(e)[:100])
+        status, val, seen = CM.model_save(ctx, d, ilst, "c0")
+        ctx.corr_cases += 1
+        ctx.case(("malformed", kind, i))
+        CM.compare(ctx, "c10 malformed %s on %s" % (kind, name), status, val, b.getvalue(), exc,
+                   {"runner": "c10.malformed", "layout": name, "damage": kind, "file": d.hex() if len(d) < 1500 else "len:%d" % len(d)})
+
 # ------------------------------------------------------------------ (V) vm_compute cross-check
 def vm_crosscheck(ctx, n=24):
     rng = ctx.rng
@@ -592,6 +653,7 @@ def vm_crosscheck(ctx, n=24):
 def run(ctx):
     run_layouts(ctx, all_layouts(ctx, 120 if ctx.thorough else 24), big=ctx.thorough)
     run_samples(ctx)
+    run_malformed(ctx, 600 if ctx.thorough else 120)
     # the shared edit-history engine on the MP4 samples, with the family correspondence module
     shared.shared_run(ctx, {"C10"}, 6 if ctx.thorough else 1, 6, kinds=["MP4"])
     vm_crosscheck(ctx, 40 if ctx.thorough else 24)
